@@ -37,6 +37,19 @@ def subfield_eval(eval_str: str, globals_=None, locals_=None):
     )
 
 
+class _NonFiniteFloatNames(ast.NodeTransformer):
+    """pformat() spells non-finite floats as the bare names inf / nan, which aren't literals"""
+    def visit_Name(self, node):
+        if node.id in ("inf", "nan"):
+            return ast.copy_location(ast.Constant(float(node.id)), node)
+        return node
+
+
+def _literal_eval(val: str):
+    """ast.literal_eval() that also accepts inf, -inf and nan inside of containers"""
+    return ast.literal_eval(_NonFiniteFloatNames().visit(ast.parse(val.strip(), mode="eval")))
+
+
 TextSpan = Tuple[int, int]
 SpanDict = Dict[Tuple[Union[str, int], ...], TextSpan]
 
@@ -147,7 +160,7 @@ class HumanMessageSerializer:
                 # Using an packer specific to this message
                 if packed:
                     if not evaled:
-                        var_val = ast.literal_eval(var_val)
+                        var_val = _literal_eval(var_val)
                     ser_key = (msg.name, cur_block.name, var_name)
                     serializer = se.SUBFIELD_SERIALIZERS.get(ser_key)
                     if not serializer:
